@@ -6,6 +6,7 @@ use crate::header::{HeaderSlice, HeaderSliceWithLengthProtected, HeaderSliceWith
 use crate::thin_arc::ThinArc;
 use crate::vrt;
 use crate::vrt::{any_count, base, cnt, cw, data, mk, rd, set_cnt, Tr, Tr16, Tr8, S1, S16a16};
+use alloc::vec::Vec;
 
 pub(crate) fn tbase<H, T>(t: &ThinArc<H, T>) -> usize {
     t.ptr.as_ptr() as *const u8 as usize
@@ -114,7 +115,7 @@ gproof! { fn c10_thin_deref_matches_fat() {
     core::mem::forget(t);
 } }
 
-// @h props=C01,C04,C16 fuc=ThinArc::clone,ThinArc::with_protected_arc,Arc::protected_into_thin
+// @h props=C01,C04,C16,C03,C08,C09 fuc=ThinArc::clone,ThinArc::with_protected_arc,Arc::protected_into_thin
 gproof! { fn c01_thin_clone() {
     let n = any_count();
     let (t, len, h, buf) = mk_thin_u32(n);
@@ -466,4 +467,53 @@ gproof! { #[kani::unwind(10)] fn c04_thin_hash_and_compare_hold_no_transient_own
     assert!(vrt::ip_total() >= 3 && vrt::ip_seen_only(n) && tcnt(&t) == n);
     core::mem::forget(t);
     core::mem::forget(u);
+} }
+
+// @h props=C01,C04,C10 fuc=ThinArc::clone_from,ThinArc::clone,ThinArc::drop note="provided Clone::clone_from"
+gproof! { fn c01_thin_clone_from__other_block() {
+    let (n, m) = (any_count(), any_count());
+    let (mut a, _la, _ha, _ba) = mk_thin_u32(n);
+    let (b, lb, hb, _bb) = mk_thin_u32(m);
+    let (ba, bb, ca, cb) = (tbase(&a), tbase(&b), tcw(&a), tcw(&b));
+    a.clone_from(&b);
+    assert!(tbase(&a) == bb && rd(cb) == m + 1 && a.slice.len() == lb && a.header.header == hb && vrt::ga(2));
+    if n == 1 { assert!(!vrt::g_live(ba) && vrt::gd(1)); } else { assert!(rd(ca) == n - 1 && vrt::glive_at(ba) && vrt::gd(0)); }
+    core::mem::forget(a);
+    core::mem::forget(b);
+} }
+
+/// an ExactSizeIterator whose len() is right and stable but whose size_hint is the trait's DEFAULT (0, None)
+pub(crate) struct LenOnly { pub left: usize }
+impl Iterator for LenOnly {
+    type Item = Tr;
+    fn next(&mut self) -> Option<Tr> { if self.left == 0 { None } else { self.left -= 1; Some(Tr::new()) } }
+}
+impl ExactSizeIterator for LenOnly {
+    fn len(&self) -> usize { self.left }
+}
+// @h props=C10,C06 bounded=len<=3 fuc=ThinArc::from_header_and_iter,Arc::from_header_and_iter,Arc::into_thin note="the recorded length is the number of elements, whatever size_hint says: iterator with a correct len() and the default size_hint (0, None)"
+gproof! { #[kani::unwind(6)] fn c10_thin_from_iter_len_not_size_hint() {
+    let len: usize = kani::any();
+    kani::assume(len <= 3);
+    let h: u16 = kani::any();
+    let t: ThinArc<u16, Tr> = ThinArc::from_header_and_iter(h, LenOnly { left: len });
+    assert!(rlen(&t) == len && t.slice.len() == len && t.header.length == len && t.header.header == h && tvalid(&t));
+    core::mem::forget(t);
+} }
+
+// @h props=C10,C06 fuc=Arc::into_thin,ThinArc::with_arc,Arc::from_thin,thin_to_thick note="zero-sized elements: EVERY length (also beyond isize::MAX, where the slice still occupies no bytes) survives fat -> thin -> fat"
+gproof! { fn c10_thin_zero_sized_elements_any_length() {
+    let n: usize = kani::any();
+    let h: u8 = kani::any();
+    let mut v: Vec<()> = Vec::new();
+    unsafe { v.set_len(n); }
+    let a = Arc::from_header_and_vec(HeaderWithLength::new(h, n), v);
+    assert!(a.slice.len() == n);
+    let t: ThinArc<u8, ()> = Arc::into_thin(a);
+    assert!(rlen(&t) == n && t.slice.len() == n && t.header.header == h);
+    let inside = t.with_arc(|x| x.slice.len());
+    assert!(inside == n);
+    let back = Arc::from_thin(t);
+    assert!(back.slice.len() == n && back.header.header == h);
+    core::mem::forget(back);
 } }
